@@ -3,6 +3,7 @@ package wsim
 import (
 	"fmt"
 	"hash/fnv"
+	"runtime"
 	"strings"
 	"testing"
 	"testing/cryptotest"
@@ -41,6 +42,7 @@ type Run struct {
 	Findings  []Finding
 	Obligations int // oracle obligations discharged with work in flight
 	Digest    uint64
+	AllocBytes uint64 // bytes allocated during the run (measured for C07 only)
 	Discard   string // non-empty: the run cannot be judged (counted, never a verdict)
 	HS        *HSRun
 }
@@ -66,9 +68,17 @@ func Execute(t *testing.T, scn *Scenario, tape []int32) *Run {
 				}
 			}
 		}()
+		var m0, m1 runtime.MemStats
+		if scn.Prop == "C07" {
+			runtime.ReadMemStats(&m0)
+		}
 		synctest.Test(t, func(t *testing.T) {
 			execIn(t, scn, tape, run)
 		})
+		if scn.Prop == "C07" {
+			runtime.ReadMemStats(&m1)
+			run.AllocBytes = m1.TotalAlloc - m0.TotalAlloc
+		}
 	})
 	return run
 }
